@@ -22,7 +22,7 @@ SPEC = {
              "(helper, ub, lb) enumerating every admissible (integer value, continuous grid value) and every range list; "
              "non-trivial = distinct replayed history containing >=1 queue operation or objective replacement, or a product case with both factors non-zero"),
     "assumptions": [
-        "helper preconditions as documented/used by the models: binary in {0,1}; lb<=continuous<=ub; 0<=integer<=ub; x inside the union of the (disjoint) ranges; |c_i-c_j| <= big-M",
+        "helper preconditions as documented/used by the models: binary in {0,1}; lb<=continuous<=ub; 0<=integer<=ub; x inside the union of the (disjoint) ranges",
         "HiGHS solves these <=12-variable bound-only / single-block models exactly (tolerance 1e-6 in comparisons)",
         "a fix and a lower-bound update queued for the same variable in the same batch are excluded (the order is unspecified)",
     ],
@@ -52,19 +52,17 @@ class Model:
     def __init__(self):
         self.vars = []  # [lb, ub, type]
         self.obj = None  # (coeffs list aligned with vars at the time, sense)
-        self.qfix = []  # (var, val)
-        self.qlb = []
+        self.queue = []  # pending requests in call order: ("fix" | "lb", var, val)
 
     def clone(self):
         m = Model()
         m.vars = [list(v) for v in self.vars]
         m.obj = None if self.obj is None else (list(self.obj[0]), self.obj[1], self.obj[2])
-        m.qfix = list(self.qfix)
-        m.qlb = list(self.qlb)
+        m.queue = list(self.queue)
         return m
 
     def key(self):
-        return json.dumps([self.vars, self.obj, sorted(self.qfix), sorted(self.qlb)])
+        return json.dumps([self.vars, self.obj, self.queue])
 
     def enabled(self, max_vars):
         ops = []
@@ -76,9 +74,9 @@ class Model:
                 for s in ("min", "max"):
                     ops.append(["obj", p, s])
             for v in range(n):
-                touched_fix = any(q[0] == v for q in self.qfix)
-                touched_lb = any(q[0] == v for q in self.qlb)
-                if not touched_lb and not touched_fix:
+                # a variable may be named by up to two pending requests (the same request twice, a fix after a lower bound, ...):
+                # requests take effect in call order at the next optimize()
+                if sum(1 for q in self.queue if q[1] == v) < 2:
                     for val in (0, 1, 2):
                         ops.append(["fix", v, val])
                     for val in (1, 2):
@@ -95,17 +93,15 @@ class Model:
         elif k == "obj":
             self.obj = (OBJ_PATTERNS[op[1]](len(self.vars)), op[2], OBJ_CONST[op[1]])
         elif k == "fix":
-            self.qfix.append((op[1], float(op[2])))
+            self.queue.append(("fix", op[1], float(op[2])))
         elif k == "lb":
-            self.qlb.append((op[1], float(op[2])))
+            self.queue.append(("lb", op[1], float(op[2])))
         elif k == "opt":
-            for v, val in self.qfix:
+            for kind, v, val in self.queue:
                 self.vars[v][0] = val
-                self.vars[v][1] = val
-            for v, val in self.qlb:
-                self.vars[v][0] = val
-            self.qfix = []
-            self.qlb = []
+                if kind == "fix":
+                    self.vars[v][1] = val
+            self.queue = []
         return self
 
     def predict(self):
@@ -155,7 +151,7 @@ def cases(tier, seed):
         for lb in (0, 1):
             if lb <= ub:
                 yield {"part": "binprod", "lb": lb, "ub": ub}
-    # piecewise: every list of 1-3 disjoint integer ranges inside [0,6], passed in every order, distinct constants
+    # piecewise: every list of 1-3 disjoint integer ranges inside [0,6], passed in every order, distinct constants (close together: 1, 2, 0.5; and far apart: 5, 1, 20)
     rngs = [(a, b) for a in range(0, 7) for b in range(a, 7)]
     consts_pool = [1, 2, 0.5]
     lists = []
@@ -322,8 +318,7 @@ def run(case):
                     nt += 1
     elif part == "piecewise":
         pool = case["consts"]
-        for rl0 in case["lists"]:
-            cs = pool[:len(rl0)]
+        for rl0, cs in [(r_, pool[:len(r_)]) for r_ in case["lists"]] + [(r_, [5, 1, 20][:len(r_)]) for r_ in case["lists"] if len(r_) > 1]:
             # the ranges are passed in EVERY order (the helper only asks for disjoint ranges), which also assigns the constants in every way
             for perm in itertools.permutations(range(len(rl0))):
                 rl = [rl0[i] for i in perm]
